@@ -131,11 +131,13 @@ structure Tx where
   sent   : List Bytes   -- radio: log of committed PDUs
   frags  : List Bytes   -- ghost: the PDUs try_send_pdus committed for the SDU handed over last
   sdu    : Bytes        -- ghost: that SDU (the L2CAP frame in transmit_buffer_, as far as its length field says)
+  allocLog : List (Bytes × Nat)  -- ghost: every PDU try_send_pdus committed, with the radio's max_tx_size()
+                                 --        at the moment its buffer was allocated
 deriving Repr, DecidableEq
 
 def Tx.init (c : Cfg) (maxTx : Nat) : Tx :=
   { buf := List.replicate c.cap 0, size := 0, used := 0, fault := false, freeTx := 0, maxTx := maxTx,
-    sent := [], frags := [], sdu := [] }
+    sent := [], frags := [], sdu := [], allocLog := [] }
 
 /-- fresh transmit buffers of the mock radio are filled with 0xEE -/
 def fresh (n : Nat) : Bytes := List.replicate n 0xEE
@@ -173,6 +175,7 @@ def trySendLoop (c : Cfg) : Nat → Tx → Tx
         | none => { t with fault := true }
         | some (pdu, copy) =>
             trySendLoop c n { t with freeTx := n, sent := t.sent ++ [pdu], frags := t.frags ++ [pdu],
+                                     allocLog := t.allocLog ++ [(pdu, t.maxTx)],
                                      size := t.size - copy, used := t.used + copy }
 
 def trySend (c : Cfg) (t : Tx) : Tx := if t.fault then t else trySendLoop c t.freeTx t
